@@ -372,7 +372,37 @@ def staged_execute(case, stats):
     )
 
 
+def large_enumerate(tier, shard, nshards):
+    def gen():
+        for size in (65535, 65536, 65537, 70001, 131075, 200000):
+            for klen in (1, 3, 4, 5, 7, 16, 255, 65537):
+                yield {"size": size, "klen": klen}
+
+    return shard_iter(gen(), shard, nshards)
+
+
+def large_execute(case, stats):
+    """Large data (around and beyond 64 KiB) with keys of every kind of length; NetBIOS on the same data."""
+    from dissect.cobaltstrike import utils
+
+    rnd = random.Random(case["size"] * 1000 + case["klen"])
+    data = rnd.randbytes(case["size"])
+    key = rnd.randbytes(case["klen"])
+    out = bytes(lib(utils.xor, data, key))
+    want = bytes(a ^ b for a, b in zip(data, itertools.cycle(key)))
+    if out != want:
+        first = next(i for i in range(len(want)) if i >= len(out) or out[i] != want[i])
+        check(False, "xor:value", f"xor of {case['size']} bytes with a {case['klen']}-byte key: first wrong byte at offset {first}")
+    eq(bytes(lib(utils.xor, out, key)) == data, True, "xor:self_inverse", "large xor is self-inverse")
+    if case["klen"] == 4:
+        enc = lib(utils.netbios_encode, data)
+        eq(len(enc), 2 * len(data), "netbios:length", "large netbios length")
+        eq(bytes(lib(utils.netbios_decode, enc)) == data, True, "netbios:roundtrip", "large netbios round trip")
+    stats.note(case, True, classes=["large"])
+
+
 SUBS = [
+    Sub("large_inputs", large_execute, enumerate=large_enumerate, exhaustive=True),
     Sub("xor", xor_execute, strategy=xor_strategy, examples={"quick": 8000, "thorough": 160000}),
     Sub("netbios_exhaustive", netbios_execute, enumerate=netbios_enumerate, exhaustive=True),
     Sub("netbios", netbios_execute, strategy=netbios_strategy, examples={"quick": 4000, "thorough": 80000}),
